@@ -274,9 +274,14 @@ pub fn run(ctx: &Ctx, out: &mut Outcome) {
 }
 
 /// short programs whose values become large: products of big 형 constants, repeated squaring
-fn big_value_case() -> BoxedStrategy<ProgCase> {
+pub fn big_value_case() -> BoxedStrategy<ProgCase> {
     use crate::refparse::RCmd;
-    (prop::collection::vec((100usize..3000, 100usize..3000), 2..5), 0usize..4, any::<bool>(), any::<bool>())
+    // factors: arbitrary, or powers of two (their products are multiples of 2^32 / 2^64: values whose low limbs are zero)
+    let factor = prop_oneof![
+        3 => (100usize..3000, 100usize..3000),
+        1 => prop::sample::select(vec![(256usize, 256usize), (512, 128), (1024, 64), (2048, 32), (1024, 1024), (2048, 2048), (64, 64), (4096, 16)]),
+    ];
+    (prop::collection::vec(factor, 2..5), 0usize..4, any::<bool>(), any::<bool>())
         .prop_map(|(consts, squarings, recip, print)| {
             let mut v = Vec::new();
             for (h, d) in &consts {
